@@ -52,6 +52,25 @@ def enumerate_cases(tier, seed):
     if cfg["cls"] in ("quantized_bits", "quantized_linear") and cfg["bits"] - int(bool(cfg["keep_negative"])) == 0:
       continue
     cases.append(dict(stoch=True, **cfg))
+  # quantized_relu with an explicit upper bound of the surrogate and/or the unquantized clip (is_quantized_clip=False):
+  # whatever the bound, the output is a code of the declared format
+  for cfg in fp.configs(4 if tier == "quick" else 6, classes=("quantized_relu",)):
+    for extra in ({"is_quantized_clip": False}, {"is_quantized_clip": False, "relu_upper_bound": 1.5},
+                  {"is_quantized_clip": False, "relu_upper_bound": 3.0}, {"relu_upper_bound": 0.75}):
+      rub = extra.get("relu_upper_bound")
+      f = fp.fmt(cfg)
+      # the documentation asks for a bound "appropriate to the quantization parameters": the lattice keeps bounds that
+      # are codes of the format or lie above its largest code (an unquantized clip at a non-code emits that non-code)
+      if rub is not None and not extra.get("is_quantized_clip", True) and rub < f["hi"] * f["step"] and (rub / f["step"]) % 1:
+        continue
+      cases.append(dict(cfg, extra=extra))
+  # the documented modifiable attribute `symmetric` of quantized_linear re-assigned after construction (before or after a
+  # first call): the object must emit the codes of the format it now declares
+  for cfg in fp.configs(4 if tier == "quick" else 6, classes=("quantized_linear",)):
+    if cfg["alpha"] not in (None, 1.0) or not cfg["keep_negative"] or cfg["bits"] < 2:
+      continue
+    for mut in ("reassign", "call-then-reassign"):
+      cases.append(dict(cfg, mut=mut))
   # constant PER-CHANNEL scales (alpha given as a vector of unequal powers of two, a documented use): channel c must
   # behave as the scalar configuration alpha[c], and min()/max() must enclose the outputs of every channel
   for cfg in fp.configs(4 if tier == "quick" else 6, classes=("quantized_bits", "quantized_linear")):
@@ -193,7 +212,19 @@ def run_case(cfg):
   stoch = cfg.pop("stoch", False) if "stoch" in cfg else False
   if stoch:
     return run_stochastic(cfg, f, x, tags)
-  q = fp.make(cfg)
+  extra = cfg.pop("extra", None) or {}
+  mut = cfg.pop("mut", None)
+  if extra:
+    tags = (tags + ":" if tags else "") + "+".join(sorted(extra))
+  if mut:
+    tags = (tags + ":" if tags else "") + "symmetric-reassigned"
+    # cfg is the FINAL configuration; the object starts with the other value of `symmetric`
+    q = fp.make(dict(cfg, symmetric=1 - int(cfg["symmetric"])))
+    if mut == "call-then-reassign":
+      q(tf.constant(x))
+    q.symmetric = cfg["symmetric"]
+  else:
+    q = fp.make(cfg, **extra)
   views = common.rank_views(x)
   outs = [np.asarray(q(tf.constant(v)), dtype=np.float32).reshape(-1) for v in views]
   y = outs[0]
@@ -246,7 +277,7 @@ def run_case(cfg):
       has_range = True
     except AssertionError:
       rng = None   # the class declares range() unsupported for this configuration
-    if rng is not None:
+    if rng is not None and "relu_upper_bound" not in extra:
       if sorted(set(rng.tolist())) != sorted(set(distinct.tolist())) or len(rng) != len(set(rng.tolist())):
         bad("range()", "range() %r != reachable set %r" % (sorted(set(rng.tolist()))[:6],
                                                             distinct.tolist()[:6]),
@@ -258,7 +289,7 @@ def run_case(cfg):
       pass
     got = set((distinct / f["step"]).tolist())
     missing = want - got
-    if missing and f["kind"] in ("linear", "relu", "leaky") and f.get("alpha", 1.0) == 1.0:
+    if missing and f["kind"] in ("linear", "relu", "leaky") and f.get("alpha", 1.0) == 1.0 and "relu_upper_bound" not in extra:
       bad("reachable", "codes %r are never produced" % sorted(missing)[:5], missing=sorted(missing)[:20])
   changed = bool(np.any(y64 != xp.astype(np.float64)))
   sat_hi = bool(np.any(y64 == (f["allowed"][1] if f["sign"] else f["hi"] * f["step"])))
@@ -267,7 +298,7 @@ def run_case(cfg):
       "evals": int(sum(o.size for o in outs)),
       "transitions": len(outs) + 2,
       "nontrivial": nontrivial,
-      "state": repr(sorted(cfg.items())),
+      "state": repr(sorted(cfg.items())) + repr(sorted(extra.items())) + str(mut),
       "digest": common.digest(y, qmin, qmax),
       "violations": viol,
       "traces": 0,
